@@ -66,6 +66,7 @@ type TypeSpec struct {
 	Models     map[string]*Clause
 	Invariants []*Clause
 	Hypotheses []*Clause // assumed at method entry, never checked (stated in the trusted base)
+	ConstInvs  []*Clause // construction invariants over immutable fields: proved for every object at the return of the function that allocates it, assumed of every receiver
 	Flags      map[string]bool
 	GuardedBy  map[string]string // field -> mutex field
 	LockInv    []*Clause         // lock invariants of the guarded state
@@ -118,7 +119,7 @@ var topKeywords = map[string]bool{"global": true, "declare": true, "type": true,
 var subKeywords = map[string]bool{"requires": true, "ensures": true, "xensures": true, "invariant": true, "unreachable": true, "decreases": true,
 	"modifies": true, "let": true, "loop": true, "implements": true, "props": true, "pure": true, "nopanic": true, "inline": true,
 	"view": true, "modelfield": true, "guarded_by": true, "trusted": true, "safe": true, "opaque": true, "noverify": true, "immutable": true,
-	"trusts": true, "assumeat": true, "defines": true, "hint": true, "checks": true, "iensures": true, "lockinv": true, "assumes": true, "uses": true, "hypothesis": true, "mayblock": true, "interfered": true, "syncwrites": true, "terminates": true, "nilok": true, "noinv": true, "noxinv": true, "noframe": true, "constructor": true}
+	"trusts": true, "assumeat": true, "defines": true, "hint": true, "checks": true, "iensures": true, "lockinv": true, "assumes": true, "uses": true, "hypothesis": true, "constinv": true, "mayblock": true, "interfered": true, "syncwrites": true, "terminates": true, "nilok": true, "noinv": true, "noxinv": true, "noframe": true, "constructor": true}
 
 var namedCall = regexp.MustCompile(`^call\s+([A-Za-z_][\w]*)#(\d+)$`)
 
@@ -340,6 +341,9 @@ func (c *Contracts) loadFile(path string) error {
 					ts.Invariants = append(ts.Invariants, cl)
 				case "hypothesis":
 					ts.Hypotheses = append(ts.Hypotheses, cl)
+				case "constinv":
+					cl.Ord = len(ts.ConstInvs) + 1
+					ts.ConstInvs = append(ts.ConstInvs, cl)
 				case "lockinv":
 					// lockinv expr: holds of the guarded state whenever the guarding mutex is free (lock invariant)
 					cl.Ord = len(ts.LockInv) + 1
@@ -579,7 +583,7 @@ func parseClause(l rawLine, path string) (*Clause, error) {
 		} else if _, err2 := ParseExpr("tuple(" + cl.Text + ")"); err2 != nil {
 			return nil, fmt.Errorf("%s:%d: %v", path, l.line, err)
 		}
-	case "requires", "ensures", "checks", "iensures", "lockinv", "xensures", "invariant", "view", "hypothesis", "assumes", "defines":
+	case "requires", "ensures", "checks", "iensures", "lockinv", "xensures", "invariant", "view", "hypothesis", "constinv", "assumes", "defines":
 		e, err := ParseExpr(cl.Text)
 		if err != nil {
 			return nil, fmt.Errorf("%s:%d: %v", path, l.line, err)
